@@ -120,6 +120,7 @@ def public_path(spec, rng, acc):
             continue
         pb = payload.to_bytes(nb, "little")
         pdu1 = ((d.pgn >> 8) & 0xFF) < 240
+        kept = []
         combos = [(p, s, t) for p in range(8) for s, t in addr]
         combos += [(rng.randrange(8), rng.randrange(256), rng.randrange(256)) for _ in range(4 if quick else 60)]
         if quick:
@@ -166,13 +167,15 @@ def public_path(spec, rng, acc):
                 if m is None:
                     acc.count("decode_returned_none_not_judged_here")
                     continue
+                kept.append((m, exp, fmt))
                 if hdr(m) != exp:
                     key = "actisense-header-mismatch" if fmt == "actisense" else "decoded-header-mismatch"
                     acc.violation(key, f"{fmt}: sent {exp} decoded {hdr(m)}",
                                   {"kind": "public_decode", "fmt": fmt, "definition": d.id, "prio": prio, "src": src, "dst": dst})
             # encode side (encodable definitions): message -> identifier bytes -> reference parse
             if d.encodable and outs.get("actisense") is not None:
-                m = outs["actisense"]
+                import copy as _copy
+                m = _copy.deepcopy(outs["actisense"])          # (the decoded message itself is kept untouched and re-read later)
                 m.priority, m.source, m.destination = prio, src, dst     # non-canonical for PDU2 when dst != 255
                 try:
                     eb = enc.encode_ebyte(m)
@@ -201,6 +204,14 @@ def public_path(spec, rng, acc):
                 if back is not None and hdr(back) != (prio, d.pgn, src, dst):
                     acc.violation("actisense-header-mismatch", f"actisense text: {(prio, d.pgn, src, dst)} came back {hdr(back)}",
                                   {"kind": "public_encode", "fmt": "actisense", "definition": d.id, "prio": prio, "src": src, "dst": dst})
+        # what was returned stays as it was: the messages handed out for the earlier identifiers (same payload, other
+        # priority / source / destination) still carry their own header after all the later ones were decoded
+        for m_, exp_, fmt_ in kept:
+            acc.count("earlier_results_rechecked")
+            if hdr(m_) != exp_:
+                acc.violation("returned-message-header-changed-later", f"{fmt_}: a message decoded from {exp_} reads {hdr(m_)} after later frames with the same payload were decoded",
+                              {"kind": "public_decode", "fmt": fmt_, "definition": d.id, "expected": list(exp_)})
+                break
         acc.sample({"definition": d.id, "pgn": d.pgn, "combos": len(combos)}, cap=3)
 
 
